@@ -747,8 +747,11 @@ struct Sim {
       VP_CHECK(c, (CBuf *)ret == x.b(), "reserve-result", "mpt_array_reserve returned %p, handle holds %p", (void *)ret, (void *)x.b());
       VP_CHECK(c, x.b()->size >= len, "reserve-result", "reserved %zu bytes, buffer size is %zu", len, x.b()->size);
       if (compatible) {
+        // same traits: everything the request covers is kept; alias traits (same finaliser, other object) are a type change
+        // for which the documentation ("change buffer content type", "clear incompatible data") promises no content
+        size_t keep = (tr == x.tr) ? std::min(n, len / esz) : 0;
         x.tr = tr;
-        if (strict) expect_prefix(x, "reserve", std::min(n, len / esz));
+        if (strict) expect_prefix(x, "reserve", keep);
       } else {
         if (n) { nontrivial = true; c.label("reserve:type-change-clears"); }
         x.vals.clear();
